@@ -401,14 +401,22 @@ def op_spurious_ili_def(lex, v, p, q, ver):
 _BLANKS = ('', ' ', '', ' \n\t ')
 
 
+def _blank_item(k, ver):
+    """A blank text; white space only needs xml:space="preserve" (1.3) to survive load()."""
+    t = _BLANKS[k % 4]
+    if t and ver == '1.3':
+        return {'text': t, 'space': 'preserve'}
+    return {'text': ''}
+
+
 def op_blank_definition(lex, v, p, q, ver):
     sss = _need_synsets(lex, 1)
     ss = sss[p % len(sss)]
     defs = ss.setdefault('definitions', [])
     if v % 2 == 0 or not defs:
-        defs.append({'text': _BLANKS[q % 4], 'meta': None})
+        defs.append(dict(_blank_item(q, ver), meta=None))
     else:
-        defs[q % len(defs)]['text'] = _BLANKS[(q // 2) % 4]
+        defs[q % len(defs)].update(_blank_item(q // 2, ver))
 
 
 def op_blank_example(lex, v, p, q, ver):
@@ -420,9 +428,9 @@ def op_blank_example(lex, v, p, q, ver):
     ss = sss[p % len(sss)]
     exs = ss.setdefault('examples', [])
     if v % 3 == 0 or not exs:
-        exs.append({'text': _BLANKS[q % 4], 'meta': None})
+        exs.append(dict(_blank_item(q, ver), meta=None))
     else:
-        exs[q % len(exs)]['text'] = _BLANKS[(q // 2) % 4]
+        exs[q % len(exs)].update(_blank_item(q // 2, ver))
 
 
 def op_repeat_definition(lex, v, p, q, ver):
